@@ -30,15 +30,17 @@ async fn prepare(dir_name: &str, beacon: &CardanoDbBeacon, range: &RangeInclusiv
 
 fn immutable(database_dir: &Path, name: &str) -> PathBuf { database_dir.join("immutable").join(name) }
 
-async fn verify(database_dir: &Path, verified_digests: &VerifiedDigests) -> bool {
+async fn verify_with(database_dir: &Path, verified_digests: &VerifiedDigests, allow_missing: bool) -> bool {
     let client = CardanoDatabaseClientDependencyInjector::new().build_cardano_database_client();
     client
-        .verify_cardano_database(&CertificateMessage::dummy(), &CardanoDatabaseSnapshotMessage::dummy(), &ImmutableFileRange::Range(2, 4), false, database_dir, verified_digests)
+        .verify_cardano_database(&CertificateMessage::dummy(), &CardanoDatabaseSnapshotMessage::dummy(), &ImmutableFileRange::Range(2, 4), allow_missing, database_dir, verified_digests)
         .await
         .is_ok()
 }
 
-async fn scenario(tag: &str, change: impl FnOnce(&Path)) -> bool {
+async fn scenario(tag: &str, change: impl FnOnce(&Path)) -> bool { scenario_with(tag, false, change).await }
+
+async fn scenario_with(tag: &str, allow_missing: bool, change: impl FnOnce(&Path)) -> bool {
     let beacon = CardanoDbBeacon { epoch: Epoch(123), immutable_file_number: 10 };
     let (database_dir, verified_digests) = prepare(&format!("verif_c10_replay_{tag}"), &beacon, &(1..=15)).await;
     // files must differ in content for the scenarios to mean anything
@@ -54,7 +56,7 @@ async fn scenario(tag: &str, change: impl FnOnce(&Path)) -> bool {
         (database_dir, VerifiedDigests { digests, merkle_tree })
     };
     change(&database_dir);
-    verify(&database_dir, &verified_digests).await
+    verify_with(&database_dir, &verified_digests, allow_missing).await
 }
 
 #[tokio::test]
@@ -76,4 +78,54 @@ async fn replay_verify_cardano_database() {
         let c = std::fs::read(immutable(d, "00008.chunk")).unwrap();
         std::fs::write(immutable(d, "00003.chunk"), c).unwrap();
     }).await, "a certified file from OUTSIDE the requested range (content of 00008.chunk in place of 00003.chunk, range 2..=4) is accepted");
+    // allowing GAPS allows missing files only: every present file must still be the certified one of that name
+    assert!(scenario_with("gaps_ok", true, |d| std::fs::remove_file(immutable(d, "00003.chunk")).unwrap()).await, "a missing file is rejected although the caller allowed gaps");
+    assert!(!scenario_with("gaps_missing_not_allowed", false, |d| std::fs::remove_file(immutable(d, "00003.chunk")).unwrap()).await, "a missing file is accepted although gaps were not allowed");
+    assert!(!scenario_with("gaps_swapped", true, |d| {
+        let (a, b) = (immutable(d, "00002.chunk"), immutable(d, "00003.chunk"));
+        let (ca, cb) = (std::fs::read(&a).unwrap(), std::fs::read(&b).unwrap());
+        std::fs::write(&a, cb).unwrap();
+        std::fs::write(&b, ca).unwrap();
+    }).await, "with gaps allowed, two SWAPPED immutable files are accepted");
+    assert!(!scenario_with("gaps_modified", true, |d| std::fs::write(immutable(d, "00003.chunk"), "tampered content").unwrap()).await, "with gaps allowed, a modified file is accepted");
+}
+
+/// list_immutable_files_not_verified compares with the digest stored UNDER THAT FILE NAME, not with the set of certified values
+#[tokio::test]
+async fn replay_list_immutable_files_not_verified() {
+    use mithril_cardano_node_internal_database::entities::ImmutableFile;
+    let beacon = CardanoDbBeacon { epoch: Epoch(123), immutable_file_number: 10 };
+    let (database_dir, verified_digests) = prepare("verif_c10_replay_list", &beacon, &(1..=15)).await;
+    let digester = CardanoImmutableDigester::new(None, TestLogger::stdout());
+    let computed = digester.compute_digests_for_range(&database_dir, &(2..=4)).await.unwrap().entries;
+    let none = verified_digests.list_immutable_files_not_verified(&computed);
+    assert!(none.tampered_files.is_empty() && none.non_verifiable_files.is_empty(), "untouched files reported");
+    // give one file the (certified) digest of another one
+    let mut swapped: BTreeMap<ImmutableFile, String> = computed.clone();
+    let keys: Vec<ImmutableFile> = swapped.keys().cloned().collect();
+    let (d0, d1) = (swapped[&keys[0]].clone(), swapped[&keys[1]].clone());
+    if d0 != d1 {
+        swapped.insert(keys[0].clone(), d1);
+        let r = verified_digests.list_immutable_files_not_verified(&swapped);
+        assert!(r.tampered_files.contains(&keys[0].filename), "a file carrying the certified digest of ANOTHER file name is not reported as tampered");
+    }
+    // a file name the verified list does not know
+    let mut unknown = computed.clone();
+    unknown.insert(ImmutableFile::new(PathBuf::from("99999.chunk")).unwrap(), d0);
+    assert!(verified_digests.list_immutable_files_not_verified(&unknown).non_verifiable_files.contains(&"99999.chunk".to_string()), "an unknown file name is not reported as non verifiable");
+}
+
+/// the served digest list is accepted only if its Merkle root is the one the certificate signs
+#[test]
+fn replay_check_merkle_root_is_signed_by_certificate() {
+    use mithril_common::crypto_helper::{MKTree, MKTreeNode, MKTreeStoreInMemory};
+    use mithril_common::entities::{ProtocolMessage, ProtocolMessagePartKey};
+    let tree: MKTree<MKTreeStoreInMemory> = MKTree::new(&["a".to_string(), "b".to_string()]).unwrap();
+    let other: MKTree<MKTreeStoreInMemory> = MKTree::new(&["a".to_string(), "c".to_string()]).unwrap();
+    let (root, other_root): (MKTreeNode, MKTreeNode) = (tree.compute_root().unwrap(), other.compute_root().unwrap());
+    let mut protocol_message = ProtocolMessage::new();
+    protocol_message.set_message_part(ProtocolMessagePartKey::CardanoDatabaseMerkleRoot, root.to_hex());
+    let certificate = CertificateMessage { protocol_message: protocol_message.clone(), signed_message: protocol_message.compute_hash(), ..CertificateMessage::dummy() };
+    InternalArtifactProver::check_merkle_root_is_signed_by_certificate(&certificate, &root).expect("the certified root is rejected");
+    assert!(InternalArtifactProver::check_merkle_root_is_signed_by_certificate(&certificate, &other_root).is_err(), "a Merkle root the certificate does NOT sign is accepted");
 }
